@@ -7,6 +7,7 @@ OBLIGATIONS = [
     ob('C19.members.window', W + 'c19_members_window', 'the same world: an archive outside the depth window contributes no row', units=['walk'], complete=False, bound='1 window'),
     ob('C19.corrupt', W + 'c19_corrupt', 'the same world: an archive that cannot be opened is listed as a file and skipped, an unreadable member is skipped and the next one reported - no abort, no other row lost', units=['walk'], complete=False, bound='2 fault scenarios'),
     ob('C19.limit', W + 'c06_walk_limit_archive', 'the same world, every limit 0..8: members count towards LIMIT like ordinary rows, also when the limit is reached inside an archive (same harness as C06.walk.limit.archive)', units=['walk'], complete=False, bound='limit 0..8'),
+    ob('C19.limit.filter', W + 'c06_walk_limit_filter', 'the same world with a WHERE filter rejecting any one entry or member (symbolic), every limit 0..7: members are subject to the same filter and LIMIT as ordinary entries - LIMIT counts matching rows, the result is a prefix of the unlimited filtered traversal (same harness as C06.walk.limit.filter)', units=['walk'], complete=False, bound='one rejected entry, limit 0..7'),
     ob('C19.zipdate', 'verif_frag::zipdate::c19_zipdate', 'the WHOLE real to_local_datetime (verbatim on a calendar shim with a scripted clock): for EVERY current date and time and EVERY stored timestamp naming an existing date (1980..2107, 29 February included) the value has exactly the stored year, month, day, hour, minute and second - it does not depend on the day the search runs, and nothing panics', units=['zipdate']),
     ob('C19.zipdate.total', 'verif_frag::zipdate::c19_zipdate_total', 'the same function: for every current date and ANY stored bit fields (month 0, day 31 in a short month, hour 31 ...) it returns without a panic, so a damaged timestamp does not abort the search', units=['zipdate']),
     ob('C19.mode', 'verif_frag::status::c10_status', 'placeholder', units=['status']),
